@@ -140,6 +140,19 @@ def call_ext(it, chain: str, args: List[Any], kwargs: Dict[str, Any], env, node)
         return op("numba_" + tail.replace(".", "_"), *[to_term(a) for a in args])
     if chain in IDENTITY_FUNCS and args:
         return args[0]
+    if chain == "itertools.product":
+        # concrete operands only: the cartesian product in lexicographic order (last factor varies fastest)
+        import itertools as _it
+        rep = kwargs.get("repeat", 1)
+        rep = int(rep) if isinstance(rep, (int, sp.Integer)) else None
+        seqs = [it.iterate(a, env, node) for a in args]
+        if rep is not None and all(s is not None for s in seqs):
+            return [tuple(x) for x in _it.product(*seqs, repeat=rep)]
+    if chain in ("itertools.chain",) and all(it.iterate(a, env, node) is not None for a in args):
+        out = []
+        for a in args:
+            out += it.iterate(a, env, node)
+        return out
     if chain.startswith("datetime."):
         # datetime constructors / class methods: kept as named operators with their keywords (typestate rules read them)
         name = "dt_" + chain[len("datetime."):].replace(".", "_")
@@ -169,8 +182,32 @@ def deepcopy_value(it, v, env, node):
     return v
 
 
+# leading parameters of numpy functions that callers may also pass by keyword: keyword arguments are moved into their
+# positional slots first, so `np.full_like(x, fill_value=v)` and `np.full_like(x, v)` are the same call to the model
+NUMPY_SIGS = {
+    "full_like": ["a", "fill_value"], "full": ["shape", "fill_value"], "where": ["condition", "x", "y"],
+    "clip": ["a", "a_min", "a_max"], "roll": ["a", "shift", "axis"], "searchsorted": ["a", "v", "side"],
+    "zeros": ["shape"], "ones": ["shape"], "empty": ["shape"], "zeros_like": ["a"], "ones_like": ["a"], "empty_like": ["a"],
+    "linspace": ["start", "stop", "num"], "arange": ["start", "stop", "step"], "interp": ["x", "xp", "fp"],
+    "maximum": ["x1", "x2"], "minimum": ["x1", "x2"], "arctan2": ["x1", "x2"], "power": ["x1", "x2"], "mod": ["x1", "x2"],
+    "sum": ["a", "axis"], "nansum": ["a", "axis"], "mean": ["a", "axis"], "nanmean": ["a", "axis"], "max": ["a", "axis"],
+    "min": ["a", "axis"], "all": ["a", "axis"], "any": ["a", "axis"], "argmax": ["a", "axis"], "argmin": ["a", "axis"],
+    "prod": ["a", "axis"], "cumsum": ["a", "axis"], "trapz": ["y", "x"], "trapezoid": ["y", "x"], "diff": ["a"],
+    "reshape": ["a", "newshape"], "expand_dims": ["a", "axis"], "unravel_index": ["indices", "shape"], "isnan": ["x"],
+    "isfinite": ["x"], "abs": ["x"], "sqrt": ["x"], "exp": ["x"], "log": ["x"], "cos": ["x"], "sin": ["x"], "tanh": ["x"],
+    "angle": ["z"], "real": ["val"], "conj": ["x"], "dot": ["a", "b"], "fft.irfft": ["a", "n"], "fft.rfftfreq": ["n", "d"],
+    "linalg.norm": ["x"], "atleast_1d": ["arys"], "asarray": ["a"], "array": ["object"],
+}
+
+
 def call_numpy(it, tail, args, kwargs, env, node, chain):
     a = [x for x in args]
+    sig = NUMPY_SIGS.get(tail)
+    if sig and kwargs:
+        kwargs = dict(kwargs)
+        while len(a) < len(sig) and sig[len(a)] in kwargs:
+            a.append(kwargs.pop(sig[len(a)]))
+    args = a
     t = [to_term(x) for x in args]
     if tail in UNARY and len(a) >= 1:
         try:
@@ -224,7 +261,13 @@ def call_numpy(it, tail, args, kwargs, env, node, chain):
         axis = a[1] if len(a) > 1 else kw(kwargs, "axis")
         return op(nm, t[0], axis_term(axis))
     if tail == "diff":
-        return op("diff", t[0], to_term(kw(kwargs, "append")), to_term(kw(kwargs, "prepend")))
+        app, pre = to_term(kw(kwargs, "append")), to_term(kw(kwargs, "prepend"))
+        # a difference closed over the circle is a roll: one canonical form for np.diff(x, append=x[0]) and np.roll(x,-1) - x
+        if pre == NONE_T and app == op("item", t[0], num(0)):
+            return op("roll", t[0], num(-1)) - t[0]
+        if app == NONE_T and pre == op("item", t[0], num(-1)):
+            return t[0] - op("roll", t[0], num(1))
+        return op("diff", t[0], app, pre)
     if tail == "linspace":
         numv = a[2] if len(a) > 2 else kw(kwargs, "num", num(50))
         endpoint = kw(kwargs, "endpoint", True)
